@@ -28,7 +28,9 @@ def _near(flat, scores):
 # ------------------------------------------------------------------ clause: cm_counts
 @st.composite
 def _cm_cases(draw, max_size=10):
-    s = draw(gen.score_sets(max_size=max_size, mag=1e300, max_easy=1000, huge_easy=True))
+    s = draw(gen.score_sets(max_size=max_size, mag=1e300, max_easy=1000, huge_easy=True,
+                            modes=gen.ALL_MODES + ("uint",),
+                            containers=("f64", "f64", "f32", "neg-int", "neg-f32", "pos-int")))
     thr = draw(gen.shaped_thresholds(s["pos"] + s["neg"], mag=1e300))
     f32 = draw(st.sampled_from([None, None, None, "float32", "float16"])) if s["mode"] in ("grid", "dyadic") else None
     return dict(s=s, thr=thr, sorted=draw(st.booleans()),
@@ -40,11 +42,11 @@ def _build(case, sc, ec):
     from score_analysis import Scores
 
     s = case["s"]
-    pos, neg = _arr(s["pos"], s["mode"]), _arr(s["neg"], s["mode"])
-    if case.get("dtype"):
+    pos, neg = gen.build_scores(s, "pos"), gen.build_scores(s, "neg")
+    if case.get("dtype") and s.get("container", "f64") == "f64":
         pos, neg = pos.astype(case["dtype"]), neg.astype(case["dtype"])
     kw = dict(nb_easy_pos=s["ep"], nb_easy_neg=s["en"], score_class=sc, equal_class=ec)
-    if case.get("via") == "lists":
+    if case.get("via") == "lists" and s["mode"] != "uint":
         return Scores(list(s["pos"]), list(s["neg"]), **kw)
     if case.get("via") == "labels":
         labels = np.concatenate([np.ones(len(pos), dtype=int), np.zeros(len(neg), dtype=int)])
